@@ -14,7 +14,7 @@ for p in props.values():
         seen.add(key)
         src = {"prims": "corr_prims.cpp", "file": "corr_file.cpp", "cli": "corr_cli.cpp", "sched": "corr_sched.cpp"}[su["bin"]]
         name = f"{key[0]}_b{key[1]}h{key[2]}" + ("" if san else "_nosan") + ("" if opt == "-O1" else "_" + opt.strip("-"))     # same naming as ./check
-        b, log = W.build_harness(name, src, key[1], key[2], extra_flags=su.get("flags", []), sanitize=san, opt=opt)
+        b, log = W.build_harness(name, src, key[1], key[2], extra_flags=[x.replace("{VERIF}", W.VERIF) for x in su.get("flags", [])], sanitize=san, opt=opt)
         print(key, "ok" if b else "FAILED\n" + log[-2000:]); ok = ok and bool(b)
         if su["bin"] == "cli":
             b, log = W.build_harness(f"wencry_b{key[1]}h{key[2]}", None, key[1], key[2], with_repo_main=True, extra_srcs=["nullpoint.cpp"])
